@@ -59,7 +59,7 @@ func (c *c16) Cases(tier string, seed int64) []core.Case {
 	extra := []int{24, 28, 32, 36, 128, 252, 256, 260, 508, 512, 516, 1020, 1024, 1028, 2000, 2048, 2052}
 	nr := 6
 	if tier == "thorough" {
-		nr = 40
+		nr = 100
 	}
 	for i := 0; i < nr; i++ {
 		extra = append(extra, 4*(1+r.Intn(600)))
